@@ -141,3 +141,59 @@ class ChanPair:
 
     def trace(self, who):
         return [parse(r) for r in self.side(who)[0].packetizer.sent]
+
+
+# ---------------------------------------------------------------------------------------------
+# Harness-side instrumentation (no source hooks): wrap three Channel internals so that a harness can
+# tell *when* a writer's window allocation happened relative to the moment the write side was shut.
+# Only channels that carry a `_vlog` list are logged.
+_tick = [0]
+
+
+def _log(chan, what):
+    lg = getattr(chan, "_vlog", None)
+    if lg is not None:
+        _tick[0] += 1
+        lg.append((_tick[0], what))
+
+
+def instrument():
+    if getattr(Channel, "_vmc_instrumented", False):
+        return
+    Channel._vmc_instrumented = True
+    orig_wait = Channel._wait_for_send_window
+    orig_eof = Channel._send_eof
+    orig_closed = Channel._set_closed
+
+    def _wait_for_send_window(self, size):
+        n = orig_wait(self, size)
+        if n:
+            _log(self, "allocated")
+        return n
+
+    def _send_eof(self):
+        m = orig_eof(self)
+        if m is not None:
+            _log(self, "eof_sent")
+        return m
+
+    def _set_closed(self):
+        _log(self, "closed")
+        return orig_closed(self)
+
+    # keep the original code objects' names so that line tracing by function name still works
+    Channel._wait_for_send_window = _wait_for_send_window
+    Channel._send_eof = _send_eof
+    Channel._set_closed = _set_closed
+
+
+def allocations_after_shutdown(chan):
+    """Number of window allocations that happened after the write side was shut (eof_sent/closed)."""
+    shut = None
+    n = 0
+    for tick, what in getattr(chan, "_vlog", []):
+        if what in ("eof_sent", "closed") and shut is None:
+            shut = tick
+        elif what == "allocated" and shut is not None:
+            n += 1
+    return n
